@@ -72,6 +72,9 @@ def gen_model(ch: Chooser, excl=()):
             uses = [j for j in range(i) if ch.bool(num, den)]
         ext = [ch.choice(["ext_lib0", "ext_lib1"])] if ch.bool(1, 5) else []
         mods.append({"name": f"m{i}", "uses": uses, "ext": ext, "meta": {}})
+    if "intrinsic_named_module" not in excl and ch.bool(1, 6):
+        # the project's own module is named like one FORD knows as intrinsic / third-party (a serial MPI stub)
+        ch.choice(mods)["name"] = ch.choice(["mpi", "omp_lib"])
     types, procs, generics, mpis, subs = [], [], [], [], []
     for i, m in enumerate(mods):
         for _ in range(ch.count(0, 3)):
